@@ -64,6 +64,10 @@ lazy_static::lazy_static! {
     static ref LAST_PANIC: std::sync::Mutex<String> = std::sync::Mutex::new(String::new());
 }
 
+pub(crate) fn last_panic() -> String {
+    LAST_PANIC.lock().map(|g| g.replace('\n', " ")).unwrap_or_default()
+}
+
 fn run_op(op: &str, seed: u64, n: u64, out: &mut out::Out) {
     match op {
         "c01" => c01::run(seed, n, out),
